@@ -611,4 +611,11 @@ def get_current_registers(commands: List[T_Cmd]) -> Set[str]:
         for op in command.operands:
             if isinstance(op, Register):
                 current_registers.add(str(op))
+            elif isinstance(op, ArrayEntry):
+                if isinstance(op.index, Register):
+                    current_registers.add(str(op.index))
+            elif isinstance(op, ArraySlice):
+                for index in [op.start, op.stop]:
+                    if isinstance(index, Register):
+                        current_registers.add(str(index))
     return current_registers
